@@ -1,9 +1,10 @@
 CONFIG = {
     "level": "proof",
-    "level_text": "Lean theorems (kernel-checked, no sorry/axioms) about the model of the stateless verification functions and of the RFC-6962 transaction Merkle tree, for every response, light block, library instance and hash: every bound field of an accepted block / transaction list / results / validator set / parameters / state root is determined by the light-client verified header(s); altered heights are rejected; Merkle proofs are complete for lists of any length and sound by reduction to a hash collision. The unbound fields are stated as theorems too. The Go code is tied to the model on every run by a verdict correspondence over the recorded and synthetic block/light-block pairs with field-level and byte-level alterations, and by regenerated check tables extracted from core.go.",
+    "level_text": "Lean theorems (kernel-checked, no sorry/axioms) about the model of the stateless verification functions and of the RFC-6962 transaction Merkle tree, for every response, light block, library instance and hash: every bound field of an accepted block / transaction list / results / validator set / parameters / state root is determined by the light-client verified header(s); altered heights are rejected; Merkle proofs are complete for lists of any length and sound by reduction to a hash collision. The unbound fields are stated as theorems too. The Go code is tied to the model on every run by a verdict correspondence over the recorded and synthetic block/light-block pairs with field-level and byte-level alterations, and by regenerated check tables extracted from core.go. The caches of the stateless Core between calls (OasisModel/Stateless/Cache.lean: the two LRU maps height -> hash of core.go with the operations that fill and read them, the latest-height exception, an abstract chain of verified headers; OasisProofs/Props/C19Cache.lean): along every history of calls every cached state root for height h is the application hash of the verified header h+1 (or the metadata-transaction root bound to header h) and every cached results hash for h is LastResultsHash of header h+1 — never a value of another height (cache_coherent, results_cache_coherent, cache_bounded); results accepted through the cache are those committed for the requested height (results_bound_via_cache, get_block_results_bound, results_via_cache_eq_uncached); filing the results hash under h+1 instead of h accepts block h's results relabelled as h+1 and rejects the genuine ones (misfiled_results_hash_accepts_foreign_results).",
     "technique": "Lean 4 proof over a decision-sequence model + verdict correspondence and spec-on-implementation with the Go verification functions + regenerated check tables (go/ast)",
     "models": ["stateless"],
     "lean_sources": ["OasisModel/Stateless", "OasisModel/Proto.lean", "OasisProofs/Helpers/StatelessMerkle.lean"],
+    "extra_theorem_files": [{"file": "OasisProofs/Props/C19Cache.lean", "namespace": "OasisProofs.C19Cache"}],
     "regen": [
         {"kind": "statelessfacts", "out": "StatelessFacts.lean"},
     ],
